@@ -38,6 +38,37 @@ func argNameIn(info *types.Info, e ast.Expr) string {
 		return argNameIn(info, x.X)
 	case *ast.ParenExpr:
 		return argNameIn(info, x.X)
+	case *ast.CallExpr:
+		// descriptor provenance: desc.Key()[.Type()] is "the key type", desc.Elem()[.Type()] "the value/element type"
+		role := ""
+		ast.Inspect(x, func(n ast.Node) bool {
+			if ce, ok := n.(*ast.CallExpr); ok && len(ce.Args) == 0 {
+				if sel, ok := ce.Fun.(*ast.SelectorExpr); ok {
+					if t := info.TypeOf(sel.X); t != nil {
+						if nt, ok := derefType(t).(*types.Named); ok && nt.Obj().Name() == "TypeDescriptor" {
+							switch sel.Sel.Name {
+							case "Key":
+								if role == "" {
+									role = "keyType"
+								} else if role != "keyType" {
+									role = "?"
+								}
+							case "Elem":
+								if role == "" {
+									role = "valueType"
+								} else if role != "valueType" {
+									role = "?"
+								}
+							}
+						}
+					}
+				}
+			}
+			return true
+		})
+		if role != "?" {
+			return role
+		}
 	}
 	return ""
 }
@@ -54,8 +85,21 @@ func normName(s string) string {
 	return s
 }
 
+var roleSynonyms = map[string][]string{
+	"keytype":   {"keytype", "kt", "key", "ktype"},
+	"valuetype": {"valuetype", "elemtype", "et", "vt", "elem", "value", "val", "vtype", "etype"},
+}
+
 func nameMatch(a, p string) bool {
 	a, p = normName(a), normName(p)
+	if syn, ok := roleSynonyms[a]; ok {
+		for _, s := range syn {
+			if p == s {
+				return true
+			}
+		}
+		return false
+	}
 	if a == "" || p == "" {
 		return false
 	}
